@@ -20,7 +20,7 @@
    that the real handlers compute [gen] of the state they lock is the table check plus the harness.
    Panic freedom of handle/mux_write is a statement about the sequential muxer model (M3) and is
    exercised here only by the stress harness (see the tie). *)
-From Coq Require Import List String Bool Arith Sorting.Sorted.
+From Coq Require Import List String Bool Arith ZArith Sorting.Sorted.
 From GoHls Require Import Model.Lockset Model.LocksetFindings Model.LocksetCheck Model.LocksetAtomic
      Proofs.LocksetSound Proofs.LocksetTableCheck Proofs.LocksetAtomicProofs Proofs.LocksetExamples
      Generated.LocksetTable Model.Mux Proofs.MuxHistory Proofs.MuxViews.
@@ -143,3 +143,14 @@ Theorem c08_muxer_views_nonvacuous : forall m0 o1 o2,
         (steps_of m0 [ERead 7; EWrite o1; ERead 7; ERead 3; EWrite o2; ERead 7]))) = [0; 1; 2]%nat.
 Proof. exact views_example. Qed.
 Print Assumptions c08_muxer_views_nonvacuous.
+
+(* what one client sees on successive requests for a stream's media playlist, a writer running concurrently:
+   MEDIA-SEQUENCE never decreases and the preload hint's part number never decreases (C04's history clause at
+   critical-section granularity) *)
+Theorem c08_successive_playlists_monotone : forall si m0 evs r l1 e1 e2 l2 p1 p2,
+  of_requester _ r (responses mstate _ (fun m => gen_media_playlist m si) m0 (steps_of m0 evs)) = l1 ++ e1 :: e2 :: l2 ->
+  snd e1 = Some p1 -> snd e2 = Some p2 ->
+  (pl_msn p1 <= pl_msn p2)%Z
+  /\ (forall h1 h2, pl_hint p1 = Some h1 -> pl_hint p2 = Some h2 -> (h1 <= h2)%Z).
+Proof. exact muxer_playlists_monotone. Qed.
+Print Assumptions c08_successive_playlists_monotone.
